@@ -21,7 +21,7 @@ from nflows.utils import torchutils
 PROPERTY = "C05"
 RULE = (
     "StandardNormal / DiagonalNormal / ConditionalDiagonalNormal x event shapes {[1],[2],[3],[2,2]} x encoder {identity, linear} x patterns x context rows {1,2,3}: joint quadrature for "
-    "<=2 coordinates, additivity on a 3^D grid + per-factor 1-D quadrature beyond; mean() vs first moment and documented shape; lattice push-forward of sample(). "
+    "<=2 coordinates, additivity on a 3^D grid + per-factor 1-D quadrature beyond; mean() vs first moment and documented shape; lattice push-forward of sample(); sample_and_log_prob(2, k rows) against log_prob row by row. "
     "ConditionalIndependentBernoulli: exact sum over {0,1}^n (n<=4), mean, rand-lattice frequencies. MADEMoG: features {1,2} x mixture sizes {1,2,3} x block types x context rows, quadrature + all sampler paths. "
     "BoxUniform, MG1Uniform, LotkaVolterraOscillating: quadrature / factor-wise, samples inside the support. gaussian_kde_log_eval: N in {1,2,5}, D in {1,2}. "
     "One case = one (object, context row) pair; non-trivial = parameters differ from the as-constructed ones or >=2 context rows."
@@ -570,13 +570,44 @@ def all_cases(tier, seed):
     return cs
 
 
+def salp_rows(dname, cfg, pname, rows, seed):
+    """sample_and_log_prob(2, context of `rows` rows): the value returned with draw (i, j) must be log_prob of that draw under
+    context row i (float32 object: the library's samplers create default-dtype noise)"""
+    d = DC.DSUBJECTS[dname]
+    if d.ctx_shape(cfg) is None or rows < 2:
+        return []
+    out = []
+    try:
+        o32 = DC.materialise(d, cfg, pname, seed, dtype=torch.float32)
+        c32 = d.contexts(cfg, rows, seed).float()
+        with torch.random.fork_rng(), torch.no_grad():
+            torch.manual_seed(11 + seed)
+            smp, lp = o32.sample_and_log_prob(2, context=c32)
+            es = tuple(d.event_shape(cfg))
+            if tuple(smp.shape) != (rows, 2) + es or tuple(lp.shape) != (rows, 2):
+                return [("sample_and_log_prob", "wrong shapes", "%s cfg=%s: sample_and_log_prob(2, %d context rows) returned shapes %s / %s" % (dname, cfg, rows, tuple(smp.shape), tuple(lp.shape)))]
+            for i in range(rows):
+                ref = o32.log_prob(smp[i], context=c32[i : i + 1].expand(2, *c32.shape[1:]))
+                err = float((ref - lp[i]).abs().max())
+                if not err <= 1e-4 * (1 + float(ref.abs().max())):
+                    out.append(("sample_and_log_prob", "returned log_prob is not log_prob(sample | its context row)", "%s cfg=%s pattern=%s: draws of context row %d of %d: returned %s, log_prob of the draws under that row %s" % (dname, cfg, pname, i, rows, lp[i].tolist(), ref.tolist())))
+                    break
+    except Exception as e:
+        out.append(("sample_and_log_prob", "raises %s" % type(e).__name__, "%s cfg=%s: sample_and_log_prob(2, %d rows): %s: %s" % (dname, cfg, rows, type(e).__name__, str(e)[:100])))
+    return out
+
+
 def run_case(c, seed, tier):
     if c["kind"] == "normal":
         r = normal_family_case(c["dist"], c["cfg"], c["pattern"], c["rows"], seed, tier)
         vs, n = r if isinstance(r, tuple) else (r, 1)
+        if not vs:
+            vs = vs + salp_rows(c["dist"], c["cfg"], c["pattern"], c["rows"], seed)
         return c["dist"], DC.dev_signature(DC.DSUBJECTS[c["dist"]], c["cfg"]), vs, n
     if c["kind"] == "bernoulli":
         vs, n = bernoulli_case(c["cfg"], c["pattern"], c["rows"], seed)
+        if not vs:
+            vs = vs + salp_rows("ConditionalIndependentBernoulli", c["cfg"], c["pattern"], c["rows"], seed)
         return "ConditionalIndependentBernoulli", DC.dev_signature(DC.DSUBJECTS["ConditionalIndependentBernoulli"], c["cfg"]), vs, n
     if c["kind"] == "mog":
         vs, n = mog_case(c["cfg"], c["pattern"], c["rows"], seed, tier)
